@@ -8,9 +8,9 @@ props = [json.loads(l) for l in open(os.path.join(ROOT, "properties.jsonl"))]
 CHECKS = {
  "C19": ("differential + metamorphic test: observed EncodingIndicator sequence vs the reference tree builder's inserted meta elements and a char-based transcription of the extraction algorithm; exhaustive content strings over a token grammar; twin-document resumption check",
          "For every generated document/fragment and chunking the sequence of indicators equals, in order, the labels of the HTML meta elements the reference inserted; the meta element is connected when feed() returns; the final tree equals the twin document's without declarations. Every content string of <=5 (thorough 7) tokens over 10 grammar tokens.",
-         "Cases whose tree differs from the reference are C02's (excluded, counted); labels are not validated.",
+         "The label checks exclude cases whose tree differs from the reference (C02's, counted); the resumption (twin) relation is decided for every case; labels are not validated.",
          "DESIGN.md 4 C19"),
- "C02": ("differential testing against an independent reference tree builder (with the reference tokenizer): grammar-based generation, exhaustive short tag sequences, doctype table sweep; deviation switches attribute failures to listed known findings",
+ "C02": ("differential testing against an independent reference tree builder (with the reference tokenizer): grammar-based generation, exhaustive short tag sequences, doctype table sweep; every fragment context x short probe sequences; deviation switches attribute failures to listed known findings",
          "html5ever's DOM (ModelDom sink) and reported quirks mode are compared with a transcription of WHATWG 13.2.6 for generated documents and fragments under ~50 contexts and all option combinations of the property's domain; every sequence of <=2 (thorough 3) tag tokens over ~110 tokens in document mode and 8 fragment contexts; the whole quirks table in 5 spellings.",
          "Trusted: refimpl/treebuilder.rs + tb_modes.rs, written from memory of the living standard; select-relaxation rules are self-consistency only; iframe_srcdoc with a non-default initial quirks mode and select-context fragments containing <input> are excluded (counted).",
          "DESIGN.md 4 C02"),
@@ -26,13 +26,13 @@ CHECKS = {
          "After every operation every live tendril equals its model (non-interference), checked variants fail exactly when the model says so, UTF-8/WTF-8 validity holds; crash guard turns SIGSEGV/SIGABRT into a violation with the running case.",
          "Trusted: the byte-vector models and the documented preconditions of the safe API; `unsafe` entry points are not called.",
          "DESIGN.md 4 C11"),
- "C12": ("execution monitoring of generated histories and thread schedules under an instrumented global allocator (red zones, quarantine, live table, per-case leak scopes)",
+ "C12": ("execution monitoring of generated histories and thread schedules under an instrumented global allocator (red zones, guard pages, quarantine, live table, per-case leak scopes)",
          "Same histories as C11 plus thread schedules distributing clones/SendTendrils over 2-8 threads; every allocation in a case scope must be freed exactly once with the right layout, red zones and poison intact, nothing live afterwards. Runs in the vcheck_alloc binary.",
-         "Out-of-bounds/use-after-free READS are visible only through content equality; weak-memory reorderings of the atomic refcount are out of reach (real threads, x86).",
+         "Every other case runs on a guard-page scheme (block placed against an inaccessible page), where an out-of-bounds read past the end faults; reads after free are visible through content equality (poison), and under AddressSanitizer in the thorough tier's libFuzzer campaign; weak-memory reorderings of the atomic refcount are out of reach (real threads, x86).",
          "DESIGN.md 4 C12"),
  "C18": ("fault-injection style property test: a garbage-collecting model sink collects untraced, disconnected nodes at every suspension point of generated parses (one character per chunk)",
          "After every feed() return trace_handles is called, everything not connected to a traced handle or the document is marked collected; any later sink call on a collected handle is a violation and the final tree must equal a GC-free run. HTML documents, fragments (incl. a caller-supplied form pointer) and XML.",
-         "Without scripts most traced groups (open elements, head pointer, active formatting) are always connected to the document, so only the context element and a caller-supplied form pointer are observable; stated in DESIGN.md.",
+         "Simulated scripts detach sets of ancestors of the script element at script pauses (otherwise most traced groups stay connected to the document and are unobservable); XML is also driven with hand-fed token sequences.",
          "DESIGN.md 4 C18"),
  "C20": ("differential model-based test: tee sink applying every TreeSink call to RcDom and to an abstract DOM model, driven by generated parses and by direct random valid operation sequences",
          "RcDom tree, parent links and serializer visit order are compared with the model after parses of generated HTML/XML and during/after direct sequences of contract-valid sink calls (incl. selectedcontent mirroring).",
